@@ -4,7 +4,7 @@ import os
 import time
 
 from common import Stream, shrink_tokens, log
-from props.c16 import Monitor
+from props.c16 import Monitor, audit_monitor
 
 META = {
     "id": "C17",
@@ -108,6 +108,7 @@ def make_monitor(ctx, mode):
         if impl == model:
             return True
         return mon.ask(case, impl) == "ok"
+    monitor.mon = mon
     return monitor
 
 
@@ -193,6 +194,8 @@ def custom(ctx):
     overlap = overlap_nt = 0
     for st in streams(ctx):
         impl0, model0 = ctx.run_stream(st)
+        st.mon = st.monitor.mon
+        audit_monitor(ctx, st, impl0, model0)
         if st.name != "c17":
             continue
         # enumerated sequences of length >= plen are visited again by the sweep: do not count them twice
